@@ -43,7 +43,10 @@ def main():
     meta["demo_tail_with_change"] = o_with.strip().splitlines()[-3:]
     meta["ran"].append("PYTHONPATH=<worktree> python demo.py (expect != 0); PYTHONPATH=/repo python demo.py (expect 0)")
     after = os.path.join(out, "after.xml")
-    if os.environ.get("SEEDED_RERUN_SUITE"):
+    if os.path.exists(os.path.join(out, "after_rerun.xml")):
+        after = os.path.join(out, "after_rerun.xml")   # the suite was re-run here on the changed worktree
+        meta["ran"].append("cd <worktree> && PYTHONPATH=<worktree> python -m pytest ... --junitxml=after_rerun.xml (re-run here)")
+    elif os.environ.get("SEEDED_RERUN_SUITE"):
         # do not trust the agent's junit: run the repository's suite on the changed worktree here
         after = os.path.join(out, "after_rerun.xml")
         run([PY, "-m", "pytest", "-q", "-p", "no:cacheprovider", "--timeout=900", "--continue-on-collection-errors",
